@@ -57,6 +57,11 @@ def run(ctx):
         cs = [c for c in ib.calls_to('ic_btc_validation::block::BlockValidator::validate_block') if not c.cleanup]
         ctx.check(bool(cs), 'R1', 'insert-block-validates-body', ib, 'state::insert_block validates the whole block (BlockValidator::validate_block)',
                   'state::insert_block does not call BlockValidator::validate_block')
+    # the canister pushes a block only on the success edge of that validator, for every block (shared with C10.R1/R2)
+    from sa.engine import SubCtx
+    from rules import c10
+    if not isinstance(ctx, SubCtx):
+        c10.r1_r2_insert_block(SubCtx(ctx, {'R1': 'R1', 'R2': 'R1'}))
     # ---- R2
     if body:
         rows = table(prog, body)
